@@ -217,6 +217,44 @@ func (rc *runCtx) translateAll(only func(short string) bool) ([]*Obligation, []*
 		}
 		obls = append(obls, &Obligation{Name: short + "/writers[" + ws.Field + "]", Fn: short + ".writers", Kind: "scan", Goal: goal, Src: src, Ctx: tr})
 	}
+	// globalinit declarations: the package initialiser stores one of the allowed globals into the variable
+	for _, gi := range w.C.GlobalInits {
+		short := shortPkg(gi.Pkg, w.ModPath)
+		if only != nil && !only(short+".globalinit") {
+			continue
+		}
+		found := ""
+		if sp := w.SSAPkgs[gi.Pkg]; sp != nil {
+			if initFn := sp.Func("init"); initFn != nil {
+				for _, b := range initFn.Blocks {
+					for _, in := range b.Instrs {
+						st, ok := in.(*ssa.Store)
+						if !ok {
+							continue
+						}
+						g, ok := st.Addr.(*ssa.Global)
+						if !ok || g.Name() != gi.Field {
+							continue
+						}
+						found = "<not a plain global>"
+						if u, ok := st.Val.(*ssa.UnOp); ok {
+							if src, ok := u.X.(*ssa.Global); ok {
+								found = src.Pkg.Pkg.Name() + "." + src.Name()
+							}
+						}
+					}
+				}
+			}
+		}
+		goal := "false"
+		for _, a := range gi.Funcs {
+			if a == found {
+				goal = "true"
+			}
+		}
+		obls = append(obls, &Obligation{Name: short + "/globalinit[" + gi.Field + "]", Fn: short + ".globalinit", Kind: "scan", Goal: goal,
+			Src: "package variable " + gi.Field + " is initialised from one of " + strings.Join(gi.Funcs, ", ") + " (found: " + found + ")", Ctx: &FnCtx{W: w, Short: short}})
+	}
 	// contracts attached to nothing
 	var ckeys []string
 	for k := range w.C.Funcs {
@@ -555,9 +593,11 @@ func (rc *runCtx) check(prop string, t0 time.Time) int {
 	}
 	ev := map[string]interface{}{"property_id": prop, "tier": rc.tier, "seed": rc.seed, "level": "proof", "coverage": cov,
 		"assumptions": assumptions, "wall_s": time.Since(t0).Seconds(), "violations": violations}
-	os.MkdirAll(filepath.Join(rc.verif, "evidence"), 0755)
-	b, _ := json.MarshalIndent(ev, "", " ")
-	os.WriteFile(filepath.Join(rc.verif, "evidence", prop+".json"), b, 0644)
+	if os.Getenv("VERIF_NOEVIDENCE") == "" {
+		os.MkdirAll(filepath.Join(rc.verif, "evidence"), 0755)
+		b, _ := json.MarshalIndent(ev, "", " ")
+		os.WriteFile(filepath.Join(rc.verif, "evidence", prop+".json"), b, 0644)
+	}
 	fmt.Printf("%s: %d obligations, %d discharged, %d violations, %.1fs\n", prop, total, discharged, violations, time.Since(t0).Seconds())
 	if violations > 0 {
 		return 1
